@@ -419,6 +419,14 @@ class SimStep:
                 writer.close()
             if action.get("die"):
                 raise StepAbort(9, "died after sending a request")
+        elif a == "signal":
+            b.signals.setdefault(action["key"], asyncio.Event()).set()
+        elif a == "await":
+            ev = b.signals.setdefault(action["key"], asyncio.Event())
+            try:
+                await asyncio.wait_for(ev.wait(), action.get("timeout", 10))
+            except asyncio.TimeoutError:
+                b.event("await_timeout", job=self.job_i, step=self.label, key=action["key"])
         elif a == "gate":
             pass
         else:
@@ -473,6 +481,7 @@ class Build:
         self.rpc_in_flight = 0
         self.dropped = []
         self.exec_count = {}
+        self.signals = {}
         self.running_cmds = 0
         self.monitors = list(monitors)
         self.returncode = None
